@@ -36,6 +36,8 @@ package fox
 //@   assume-at after (*Pool).Get#1 : pool-discipline: dyntypeIs(call_result, *cTx) && ctxOf(call_result) != nil && ctxOf(call_result) != c && ctxOf(call_result).params != nil && ctxOf(call_result).tsrParams != nil && ctxOf(call_result).skipNds != nil && ctxOf(call_result).params != ctxOf(call_result).tsrParams && ctxOf(call_result).params != c.params && ctxOf(call_result).params != c.tsrParams && ctxOf(call_result).tsrParams != c.params && ctxOf(call_result).tsrParams != c.tsrParams && ctxOf(call_result).skipNds != c.skipNds && !released[box(ctxOf(call_result))]
 //@   -- assumed: a walk on another pooled context leaves this context's buffers alone (the pool never hands out a context in use)
 //@   assume-at after lookupByPath#1 : sub-walk-frame: stackOK(c, path) && stackMono(c) && stackTop(c, paramCnt) && paramCnt <= len(*c.params) && paramCnt <= charsMatched && !released[box(c)]
+//@   -- cut point at the backtrack step (keeps the proof of the Walk invariant on this edge small)
+//@   assert-at call (*skippedNodes).pop#1 : backtrack: (tsr ==> n != nil) && (n != nil ==> n.route != nil)
 //@   ensures tsr-node: result1 ==> result0 != nil
 //@   ensures leaf: result0 != nil ==> result0.route != nil
 //@   ensures live: !released[box(c)]
